@@ -100,6 +100,10 @@ package tax
 //
 //@ func CleanExtensions(em) (r)
 //@   ensures em == nil ==> r == nil
+//@   ensures [kept] em != nil && (exists k cbc.Key :: has(em, k) && em[k] != "") ==> r != nil
+//@   ensures [empty] r == nil ==> em == nil || (forall k cbc.Key :: has(em, k) ==> em[k] == "")
+//@   loop 1 invariant (exists k cbc.Key :: $visited[k] && em[k] != "") ==> len(nem) >= 1
+//@   loop 1 invariant len(nem) >= 1 ==> (exists k cbc.Key :: has(nem, k))
 //@   ensures [fresh] r != nil ==> fresh(r) && (forall k cbc.Key :: has(r, k) <==> has(em, k) && em[k] != "") && (forall k cbc.Key :: has(r, k) ==> r[k] == em[k])
 //@   loop 1 invariant fresh(nem) && nem != nil && (forall k cbc.Key :: has(nem, k) <==> $visited[k] && em[k] != "") && (forall k cbc.Key :: has(nem, k) ==> nem[k] == em[k]) && (forall k cbc.Key :: $visited[k] ==> has(em, k))
 //
@@ -422,12 +426,16 @@ package tax
 //@   requires c != nil && category != nil && catRatesOK(category) && (forall i int :: 0 <= i && i < len(category.Rates) ==> valuesOK(category.Rates[i]))
 //@   modifies Combo.Ext, Combo.Percent, Combo.Surcharge, map(Extensions)
 //@   footprint c
+//@   assume [A-CARD0] forall q int :: 0 <= q && q < len(category.Rates) ==> (len(category.Rates[q].Ext) == 0 <==> (forall k cbc.Key :: !has(category.Rates[q].Ext, k)))
 //@   ensures [nokey] old(c.Rate) == "" ==> err == nil && c.Percent == old(c.Percent) && c.Surcharge == old(c.Surcharge) && c.Ext == old(c.Ext)
 //@   ensures [undefined] old(c.Rate) != "" && (forall q int :: !selects(category, old(c.Rate), q)) ==> err != nil
+//@   ensures [ext] err == nil ==> (forall q int :: selects(category, old(c.Rate), q) && old(c.Country) == "" ==> (forall k cbc.Key :: has(category.Rates[q].Ext, k) ==> has(c.Ext, k) && c.Ext[k] == category.Rates[q].Ext[k]))
+//@   ensures [extkept] old(c.Country) != "" ==> c.Ext == old(c.Ext)
 //@   ensures [exempt] err == nil ==> (forall q int :: selects(category, old(c.Rate), q) && category.Rates[q].Exempt ==> c.Percent == nil && c.Surcharge == nil)
 //@   ensures [inforce] err == nil ==> (forall q int :: selects(category, old(c.Rate), q) && !category.Rates[q].Exempt && len(category.Rates[q].Values) > 0 ==> c.Percent != nil && (exists i int :: 0 <= i && i < len(category.Rates[q].Values) && *c.Percent == category.Rates[q].Values[i].Percent && surchargeOf(c, category.Rates[q].Values[i]) && applies(category.Rates[q].Values[i], tags, c.Ext) && inForce(category.Rates[q].Values[i], date) && (forall j int :: 0 <= j && j < i ==> !(applies(category.Rates[q].Values[j], tags, c.Ext) && inForce(category.Rates[q].Values[j], date)))))
 //@   ensures [unavailable] (forall q int :: selects(category, old(c.Rate), q) && !category.Rates[q].Exempt && len(category.Rates[q].Values) > 0 && (forall i int :: 0 <= i && i < len(category.Rates[q].Values) ==> !(applies(category.Rates[q].Values[i], tags, c.Ext) && inForce(category.Rates[q].Values[i], date))) ==> err != nil)
-//@   loop 1 invariant c.Ext != nil && c.Rate == old(c.Rate) && c.Percent == old(c.Percent) && c.Surcharge == old(c.Surcharge)
+//@   loop 1 invariant c.Ext != nil && c.Rate == old(c.Rate) && c.Percent == old(c.Percent) && c.Surcharge == old(c.Surcharge) && c.Country == old(c.Country)
+//@   loop 1 invariant forall k cbc.Key :: $visited[k] ==> has(c.Ext, k) && c.Ext[k] == rate.Ext[k]
 //
 // the chain from the calculator's date to the rate value: prepareLines hands the calculator's
 // country, tags and date to every combo; a combo is calculated against the regime registered
@@ -456,3 +464,4 @@ package tax
 //@   requires tc != nil && taxLinesOK(taxLines) && tc.zero.exp <= 1000
 //@   modifies *
 //@   at-call Combo).calculate assert [date] $arg1 == tc.Country && $arg2 == tc.Tags && $arg3 == tc.Date
+//@   at-call Amount).RescaleUp assert [working] $arg1 == tc.zero.exp + 2
